@@ -71,6 +71,14 @@ def defaultAtoms : List Atom :=
   Gen.defaultPeripheralsCounts.flatMap (fun c => Gen.defaultPeripheralsModes.map (Atom.peri c)) ++
   Gen.defaultLagtime.map Atom.lag
 
+def Atom.isTrans : Atom → Bool
+  | .trans _ _ => true
+  | _ => false
+
+def Atom.isMetPeri : Atom → Bool
+  | .peri _ m => m == "MET"
+  | _ => false
+
 /-! ### stepwise search: the path rule -/
 
 /-- every step of the path is a key of the table that `_is_allowed` accepts given the keys
